@@ -386,6 +386,12 @@ class HttpSeam:
         requests.adapters.HTTPAdapter.send = send
         return self
 
+    def uninstall(self):
+        import requests.adapters
+        if self._orig is not None:
+            requests.adapters.HTTPAdapter.send = self._orig
+            self._orig = None
+
 
 # -------------------------------------------------------------------- clock
 
